@@ -289,7 +289,7 @@ theorem wfFixFrame_parts {f : Bytes} (h : wfFixFrame f = true) : ∃ ver ds rest
   split at h
   · next ver ds body hp =>
     simp only [Bool.and_eq_true, List.all_eq_true, bne_iff_ne, ne_eq, Bool.not_eq_true', beq_iff_eq] at h
-    obtain ⟨⟨⟨⟨hv, hne⟩, hd⟩, hpre⟩, hlen⟩ := h
+    obtain ⟨⟨⟨⟨⟨hv, hne⟩, hd⟩, hpre⟩, hlen⟩, _⟩ := h
     rw [List.isPrefixOf_iff_prefix] at hpre
     obtain ⟨rest, hrest⟩ := hpre
     have hv' : 61 ∉ ver := fun h61 => hv 61 h61 rfl
@@ -385,7 +385,7 @@ theorem fix_msgType {f ver ds ty rest : Bytes} (h : wfFixFrame f = true)
   rw [hp] at h
   simp only [Bool.and_eq_true, List.all_eq_true, bne_iff_ne, ne_eq] at h
   have hfirst : find (fixHeader ver ds ++ [51, 53]) tag35 0 = none :=
-    find_header_none ver ds (fun h61 => h.1.1.1.1 61 h61 rfl) h.1.1.2
+    find_header_none ver ds (fun h61 => h.1.1.1.1.1 61 h61 rfl) h.1.1.1.2
   have hl := fixHeader_length ver ds
   have h35 : find f tag35 0 = some (fixHeader ver ds).length := by
     rw [find_zero] at hfirst ⊢
